@@ -66,6 +66,55 @@ def bits_of(t, keybit):
     return out
 
 
+def new_checked_differs(m, pub_path):
+    """None if the overriding new_checked can fail exactly when weak_key_test can and its Ok payload is new(key), leaf for leaf"""
+    import equiv, engine
+    import terms as T
+    from interp import State, _leaf_terms
+    from values import Enum, EnumAny
+    roots = {}
+    for op in ('new', 'weak_key_test', 'new_checked'):
+        r = [inst for nm, info, inst in m.roots_of(op=op) if info['pub_path'] == pub_path]
+        if not r:
+            return 'no %s root' % op
+        roots[op] = r[0]
+    with equiv.TermMode():
+        res = {}
+        karg = None
+        for op in ('new', 'weak_key_test', 'new_checked'):
+            engine._INTERPS.clear()
+            I = engine.mk_interp(m, 30_000_000)
+            st = State()
+            f = m.fn(roots[op])
+            args = engine.default_args(I, st, f)
+            status, r = engine.run(I, roots[op], args, st)
+            if status != 'ok':
+                return '%s could not be interpreted (%s %s)' % (op, status, str(r)[:120])
+            res[op] = r
+
+        def variants(v):
+            if isinstance(v, Enum):
+                return {v.variant: v.f}
+            if isinstance(v, EnumAny):
+                return dict(v.variants)
+            return None
+        vw, vc = variants(res['weak_key_test']), variants(res['new_checked'])
+        if vw is None or vc is None:
+            return 'results are not Result values'
+        if set(vw) != set(vc):
+            return 'it can return %s while weak_key_test can return %s' % (
+                sorted('Ok' if k == 0 else 'Err' for k in vc), sorted('Ok' if k == 0 else 'Err' for k in vw))
+        want, got = [], []
+        _leaf_terms(res['new'], want)
+        _leaf_terms(vc[0][0], got)
+        if len(want) != len(got):
+            return 'the Ok payload has a different shape from new(key)'
+        for i, (g, w) in enumerate(zip(got, want)):
+            if g is None or g is not w:
+                return 'leaf %d of the Ok payload is %s; new(key) has %s' % (i, T.show(g, 0, 3) if g is not None else 'not a term', T.show(w, 0, 3))
+    return None
+
+
 def run(chk, facts_by_config):
     chk.trusted += ['the rewrite rules of analysis/terms.py', 'NIST SP 800-67 weak-key characterisation as encoded in analysis/spec_des_weak.py']
     nist = nist_weak_keys()          # set of 8-byte tuples with odd parity
@@ -251,6 +300,12 @@ def run(chk, facts_by_config):
             calls = [t for (_b, t, c) in m.callees(root) if t['k'] == 'call' and t.get('f', {}).get('inst') is not None]
             tyname = pretty(info['ty'])
             if calls and calls[0]['f'].get('crate') in REPO_CRATES:
-                chk.violation('N-new-checked', '%s|%s|new_checked' % (cfgname, tyname), '%s overrides KeyInit::new_checked' % tyname)
+                # an override must still be  weak_key_test(key)?; Ok(new(key))  : compared by terms with the provided behaviour
+                why = new_checked_differs(m, info['pub_path'])
+                if why:
+                    chk.violation('N-new-checked', '%s|%s|new_checked' % (cfgname, tyname),
+                                  '%s overrides KeyInit::new_checked and it is not `weak_key_test(key)?; Ok(new(key))`: %s' % (tyname, why))
+                else:
+                    chk.ok('N-new-checked', '%s|%s' % (cfgname, tyname), dict(type=tyname, overrides='new_checked', equals='weak_key_test(key)?; Ok(new(key)) by terms'))
             else:
                 chk.ok('N-new-checked', '%s|%s' % (cfgname, tyname))
